@@ -752,6 +752,10 @@ pub fn piece_char(p: u8) -> char {
 
 /// Self-check of the model against published perft numbers. Any mismatch is a harness error.
 pub fn self_check(deep: bool) -> Result<(), String> {
+    self_check_depth(if deep { 3 } else { 2 })
+}
+
+pub fn self_check_depth(maxd: usize) -> Result<(), String> {
     let cases: [(&str, [u64; 3]); 6] = [
         ("rnbqkbnr/pppppppp/8/8/8/8/PPPPPPPP/RNBQKBNR w KQkq - 0 1", [20, 400, 8902]),
         ("r3k2r/p1ppqpb1/bn2pnp1/3PN3/1p2P3/2N2Q1p/PPPBBPPP/R3K2R w KQkq - 0 1", [48, 2039, 97862]),
@@ -760,7 +764,6 @@ pub fn self_check(deep: bool) -> Result<(), String> {
         ("rnbq1k1r/pp1Pbppp/2p5/8/2B5/8/PPP1NnPP/RNBQK2R w KQ - 1 8", [44, 1486, 62379]),
         ("r4rk1/1pp1qppp/p1np1n2/2b1p1B1/2B1P1b1/P1NP1N2/1PP1QPPP/R4RK1 w - - 0 10", [46, 2079, 89890]),
     ];
-    let maxd = if deep { 3 } else { 2 };
     for (fen, want) in cases.iter() {
         let p = RPos::from_fen(fen).ok_or_else(|| format!("model cannot read {}", fen))?;
         if !p.valid() {
